@@ -373,6 +373,14 @@ var Schemas = []Schema{
 	{"stmt-minus-trailing-dots", func(g *G) *Change {
 		return &Change{Kind: "stmts", Meta: mv("x", "expression"), Lines: lines("-tgtBegin(«x»)", "-‹1:stmts›", "+replBegin(«x»)")}
 	}},
+	// the '+' line of a call written above its '-' line inside a statement pattern: its elision belongs to the call's, not to
+	// the elision implied in front of the statements
+	{"stmt-plus-call-above-minus-call", func(g *G) *Change {
+		return &Change{Kind: "stmts", Lines: lines(" tgtBefore()", "+replCall(‹1:args›)", "-tgtCall(‹1:args›)")}
+	}},
+	{"stmt-plus-call-above-minus-call-leading", func(g *G) *Change {
+		return &Change{Kind: "stmts", Meta: mv("x", "expression"), Lines: lines("+replCall(«x», ‹1:args›)", "-tgtCall(«x», ‹1:args›)", " tgtAfter()")}
+	}},
 	// context lines whose Go code begins with a unary sign (the diff marker is the first column only)
 	{"expr-ctx-lines-starting-with-a-sign", func(g *G) *Change {
 		return &Change{Kind: "expr", Meta: mv("s", "expression", "o", "expression"), Lines: lines("-tgtReplace(", "+replReplace(", "   «s»,", "   -1,", "   +«o»,", "   -«s»,", " )")}
